@@ -18,11 +18,13 @@ T_RefinementImplies(e) == e.cls \in {"Surface", "Material2D"} =>
    /\ Cardinality(ToSet(e.basis)) = Len(e.basis) /\ Cardinality(ToSet(e.outliers)) = Len(e.outliers)
    /\ Covered(Len(e.basis), e.n, e.cov_num, e.cov_den)
 T_Idempotent(e) == e.cls_again = e.cls
+\* a classifier object with a history (the same geometry under another pbc pattern just before) gives the same class
+T_HistoryIndependent(e) == e.cls_hist = e.cls
 \* the recorded run is an instance of the model's dispatch (binding of the design model; mismatch = drift)
 ConformsToDispatch(e) == e.cls = Dispatch(e.dim_wrapped, e.n, e.region.has, e.region.nbasis, e.region.is2d, e.region.nconn, e.cov_num, e.cov_den)
 V17(e) == IF ~ReturnsNormally(e) THEN "ReturnsNormally" ELSE IF ~InputUntouched(e) THEN "InputUntouched"
           ELSE IF ~T_ClassMatchesDim(e) THEN "ClassMatchesDim" ELSE IF ~T_RefinementImplies(e) THEN "RefinementImplies"
-          ELSE IF ~T_Idempotent(e) THEN "Idempotent"
+          ELSE IF ~T_Idempotent(e) THEN "Idempotent" ELSE IF ~T_HistoryIndependent(e) THEN "HistoryIndependent"
           ELSE IF e.region_known /\ ~ConformsToDispatch(e) THEN "DRIFT-ConformsToDispatch" ELSE "ok"
 
 \* ---- C18: expected class and outliers known from construction
